@@ -585,10 +585,11 @@ func main() {
 	for <-c {
 	}
 }`,
-	"receive in if init": `package main
+	"receive in else-if init": `package main
 func main() {
 	c := make(chan bool)
-	if x := <-c; x {
+	if len(c) > 5 {
+	} else if x := <-c; x {
 	}
 }`,
 	"conditional receive": `package main
